@@ -265,7 +265,7 @@ def c14(c):
             "transcript operation kinds or twin classes missing: %s %s" % (missing, twins))
     c.count_classes(files, lambda e: (e["op"], tuple(e["label"]), json.dumps(e.get("msg", e.get("sval", e.get("coords", 0))))[:80], e["run"], e["pending_len"]))
     c.sample_events(files, 2, keep=lambda e: e["op"] == "challenge")
-    return c.finish(rule="operation sequences from TLC simulation of Gen_Transcript (labels/messages incl. empty, 40-byte labels, messages of 32..70000 bytes crossing 1024/4096/65536 pending bytes, "
+    return c.finish(rule="operation sequences from TLC simulation of Gen_Transcript (labels/messages incl. empty, 40-byte labels, call labels and protocol labels of 55..300 bytes around the SHA-256 block and padding boundaries, messages of 32..70000 bytes crossing 1024/4096/65536 pending bytes, "
                          "scalars 0,1,5,r-1,r-2,2^128,random, points in normalised/rescaled/sign-flipped/projective representations, consecutive challenges, scratch variables reused after in-place changes, "
                          "messages found by search so that the next digest lies within 2^240 of k*r), each run twice with one edit "
                          "(label / argument / order / none); every challenge judged, twin streams compared; distinct = distinct (op, label, argument, run, pending length)", min_events=1000)
@@ -286,7 +286,7 @@ def c17(c):
     c.count_classes(files, lambda e: (e["ev"], tuple(e.get("v") or e.get("x") or ()), e.get("largest")))
     c.sample_events(files, 2, keep=lambda e: e["ev"] != "sqrt_tables")
     return c.finish(rule="for each of the four 8-bit blocks of the 32-bit dyadic discrete log a sweep over all 256 block values (other blocks zero/random, odd-order factor trivial/random), "
-                         "special values, seeded random elements, squares and x-coordinates (both sign choices), and the exported tables (33 dyadic roots, 4x256 block entries, 256 lookup keys) "
+                         "special values, seeded random elements, squares and x-coordinates (both sign choices), all 81 patterns of the four stored (Montgomery) limbs over {0,1,random} as root input / squared / as the ratio behind an x-coordinate, and the exported tables (33 dyadic roots, 4x256 block entries, 256 lookup keys) "
                          "against their definitions; distinct = distinct inputs", min_events=2000)
 
 
@@ -314,7 +314,7 @@ def c18(c):
     c.count_classes(files, lambda e: (e["ev"], e.get("cls"), e.get("idx"), e.get("fcls"), json.dumps(e.get("f", 0))[:60]))
     c.samples.append({"note": "events carry 256-entry vectors; abbreviated", "example": {"ev": "divide", "cls": "unit", "idx": 255, "f": "e_0 (256 limbs arrays)", "out": "quotient (256 limb arrays)"}})
     return c.finish(rule="DivideOnDomain on 13 polynomial classes (random, unit vectors at 0/128/255, r-1 at one index, constant, X^255, all r-1, linear, sparse, small, zero) x domain indices "
-                         "(quick: 0,1,54,55,127,128,200,201,254,255 + 2 seeded; thorough: all 256); barycentric coefficients for 10 point classes (256, 257, 300, 65536, 2^64, (r-1)/2, r-2, r-1, random) "
+                         "(quick: 0,1,54,55,127,128,200,201,254,255 + 2 seeded; thorough: all 256); barycentric coefficients for 13 point classes (256, 257, 300, 65536, 2^64, (r-1)/2, r-2, r-1, random, limb-structured 2^64+5 / 2^128+255 / 2^192+5; repeated evaluations with the returned vector used as scratch in between) "
                          "x 4 polynomials incl. the Vandermonde characterisation; all 512+510 table entries; everything again in processes started with GOMAXPROCS=3 and on 5 CPUs "
                          "(thorough: 3,5,6,7,12 / 1,3,5,7,12); distinct = distinct (kind, class, index, polynomial)", min_events=100)
 
@@ -672,7 +672,7 @@ def c12(c):
     c.guard(not missing, "call kinds without any member: %s" % missing)
     c.count_classes(files, lambda e: (e.get("prog"), e.get("g"), e.get("i"), e.get("op"), e.get("k"), e.get("gomaxprocs"), e.get("envgmp")) if e["ev"] == "conc" else None)
     c.sample_events(files[:2], 2, keep=lambda e: e["ev"] == "conc")
-    return c.finish(rule="K in {2,8} (thorough: 2,4,8,32) goroutines x runtime GOMAXPROCS {1,4,16} (thorough: 1,2,4,16), K = 64 (thorough: 64,128) callers on MSM-bound mixes, processes started with GOMAXPROCS=1 (thorough: 1,2,4) x call mixes (prove+verify, commit, MSM over the shared SRS, encode/decode, batch helpers, "
+    return c.finish(rule="K in {2,8} (thorough: 2,4,8,32) goroutines x runtime GOMAXPROCS {1,4,16} (thorough: 1,2,4,16), K = 64 (thorough: 64,128) callers on MSM-bound mixes, processes started with GOMAXPROCS=1 (thorough: 1,2,4) x call mixes (prove+verify, commit, MSM over the shared SRS, encode/decode, batch helpers incl. long pointer lists naming 2-4 elements, "
                          "transcripts, polynomial routines, IPA); sustained-overlap programs (16 goroutines repeating calls of one kind 200 [thorough 1500] times, on the plain build); "
                          "every call executed alone and concurrently, replies compared; mixed programs on the -race build; progress watchdog; distinct = distinct (program, goroutine, position)",
                     min_events=100,
